@@ -93,10 +93,12 @@ def check_namespace(case: typing.Any, ctx: Ctx) -> Info:
         lookup_arg: typing.Any = lookups
         if len(lookups) == 1 and case["single_lookup_as_scalar"]:
             lookup_arg = lookups[0]
+        lookup_arg_shown = repr(lookup_arg)
+        lookup_arg = nu.as_container(lookup_arg, case.get("container", 0))
         with nu.cwd(d), nu.salted_hashes(case["salt"]), nu.permuted_rglob(case["rglob_seed"]):
             alt, _ = guarded(pydsdl.read_namespace, root_arg, lookup_arg, what="read_namespace:variant")
-            canon1 = _check_namespace_result(ws, ri, alt, d, where + " variant root=%r lookups=%r salt=%d" % (root_arg, lookup_arg, case["salt"]))
-        require(canon1 == canon0, "namespace-result-depends-on-call", canon0, canon1, where + " root=%r lookups=%r salt=%d rglob=%d" % (root_arg, lookup_arg, case["salt"], case["rglob_seed"]))
+            canon1 = _check_namespace_result(ws, ri, alt, d, where + " variant root=%r lookups=%s (container form %d) salt=%d" % (root_arg, lookup_arg_shown, case.get("container", 0) % 6, case["salt"]))
+        require(canon1 == canon0, "namespace-result-depends-on-call", canon0, canon1, where + " root=%r lookups=%s salt=%d rglob=%d" % (root_arg, lookup_arg_shown, case["salt"], case["rglob_seed"]))
     finally:
         ctx.cleanup(d)
     names = [wsp.full_name(ws, x) for x in ws["defs"]]
@@ -109,7 +111,7 @@ def check_namespace(case: typing.Any, ctx: Ctx) -> Info:
     if any(x.get("legacy") for x in ws["defs"]):
         classes.append("legacy-ext")
     nontrivial = multi_version or len(ws["roots"]) >= 2 or case["root_style"] % 10 != 0
-    return Info(nontrivial, classes, sample={"files": sorted(wsp.rel_path(ws, x) for x in ws["defs"]), "root": repr(root_arg), "lookups": repr(lookup_arg)})
+    return Info(nontrivial, classes, sample={"files": sorted(wsp.rel_path(ws, x) for x in ws["defs"]), "root": repr(root_arg), "lookups": lookup_arg_shown})
 
 
 def _failed_call(ctx: Ctx) -> None:
@@ -194,7 +196,8 @@ def check_files(case: typing.Any, ctx: Ctx) -> Info:
             roots_alt = list(reversed(roots_alt))
         if case.get("after_failure"):
             _failed_call(ctx)
-        c1 = run(perm, roots_alt, case["salt"], "read_files:variant")
+        ck = case.get("container", 0)
+        c1 = run(nu.as_container(perm, ck // 6), nu.as_container(roots_alt, ck), case["salt"], "read_files:variant")
         require(c1 == c0, "files-result-depends-on-call", c0, c1, where)
     finally:
         ctx.cleanup(d)
@@ -396,6 +399,7 @@ def parts(ctx: Ctx) -> typing.List[Part]:
             "lookups": st.lists(st.fixed_dictionaries({"root": st.integers(0, 3), "style": st.integers(0, 9)}), max_size=4),
             "root_style": st.integers(0, 9),
             "single_lookup_as_scalar": st.booleans(),
+            "container": st.integers(0, 5),
             "salt": st.one_of(st.just(0), st.integers(1, 2**31)),
             "rglob_seed": st.integers(0, 2**20),
             "extra_files": st.booleans(),
@@ -408,6 +412,7 @@ def parts(ctx: Ctx) -> typing.List[Part]:
             "order": st.integers(0, 1000),
             "duplicate": st.booleans(),
             "after_failure": st.booleans(),
+            "container": st.integers(0, 35),
             "root_style": st.integers(0, 9),
             "target_style": st.integers(0, 9),
             "salt": st.integers(1, 2**31),
